@@ -12,4 +12,9 @@ theorem packResp_sizeCap_translated (size : Nat) :
   unfold Translated.packResp_sizeCap
   by_cases h : size > 65535 <;> simp [h, Id.run] <;> rfl
 
+/-- the floor 512 / cap `maxUdpPayloadSize` clamps of `udpServer.handleReq` -/
+theorem udpClamp_translated (s : Nat) : udpClamp s = Translated.c09_udpClamp s := by
+  unfold udpClamp Translated.c09_udpClamp udpFloor udpMax
+  by_cases h1 : s < 512 <;> by_cases h2 : s > 65507 <;> simp [h1, h2, Id.run] <;> first | rfl | omega
+
 end MosVerif.Wire
